@@ -104,9 +104,10 @@ CLAIMS = {
         ref='DESIGN 6 C08'),
     'C11': dict(
         text='Deductive proof (Verus) of the real text of Instance::as_pubo_format / as_qubo_format and From<SortedIds> for BinaryIds: export is refused exactly when active constraints remain, the sense is maximisation or a used variable is not a defined binary (PUBO: Err iff one of these); '
-             'keys are canonical (sets of ids / pairs i<=j over ids of the objective, x^k = x) and no stored coefficient is numerically zero (loop invariant over the accumulation).',
-        note=A1 + 'PARTIAL: the value identity sum_S c_S prod x_i = objective(x) on {0,1}^n is NOT decided (needs a summation spec over the BTreeMap and the exact epsilon-drop accounting). ASSUMED: term iterator of &Function, binary_ids, used ids, BinaryIdPair::try_from (slice patterns outside Verus), and the accumulate idiom entry().and_modify().or_insert() as a helper.',
-        technique='contract-based deductive verification (Verus) of mechanically extracted Rust functions',
+             'keys are canonical (sets of ids / pairs i<=j over ids of the objective, x^k = x) and no stored coefficient is numerically zero; the exported dictionary / matrix+offset IS the specified accumulation of the objective\'s term list (skip |c| <= EPSILON, key, accumulate, remove an entry whose sum became numerically zero) - loop invariant over the BTreeMap - '
+             'and ghost lemmas lemma_pubo_value / lemma_qubo_value (induction, map-sum spec): sum_S c_S prod_{i in S} x_i = objective(x) and sum_{i<=j} Q_ij x_i x_j + offset = objective(x) for EVERY 0/1 assignment, minus an explicit remainder (the skipped and removed numerically-zero parts).',
+        note=A1 + 'ASSUMED: the term iterator of &Function (its list is a function of the message, sorted id tuples over the function ids, terms sum to the polynomial: fterms, ax_fterms_sum), binary_ids, used ids, BinaryIdPair::try_from (slice patterns outside Verus: at most two distinct ids, key = (first, last)), the accumulate idiom entry().and_modify().or_insert() as a helper, BinaryIds determined by its set (ax_binary_ids_ext). The size of the remainder is not bounded here.',
+        technique='contract-based deductive verification (Verus) of mechanically extracted Rust functions; accumulation specified as a function of the term list; map-sum spec with permutation lemma; inductive value lemmas',
         ref='DESIGN 6 C11'),
     'C17': dict(
         text='Deductive proof (Verus) of the real text of the table->instance conversion kernels of mps/convert.rs: get_dvar_bound (default [0,+inf); LO -> [l,+inf); UP -> [0,u], only a NEGATIVE UP opens the lower bound; both -> [l,u]), get_dvar_kind, convert_sense, '
